@@ -348,6 +348,30 @@ def copySubset {σ κ ν : Type} [DecidableEq σ] [DecidableEq κ]
     (subdirs : List σ) (names : List κ) (src : List (σ × κ × ν)) : List (σ × κ × ν) :=
   src.filter (fun e => subdirs.contains e.1 && names.contains e.2.1)
 
+/-- The copy loop as the code runs it (serial order): `for basename in basenames:
+for x in (feat_subdir, ali_subdir, ref_subdir): if os.path.exists(src/x/basename): cp(...)` —
+the `(subdir, name)` targets in the order they are written. `src` lists the `(subdir, name)`
+files that exist; `subdirs` the existing sub-directories in the order of the code. A name
+listed twice (`--utt-list a a`: `utt_ids` keeps the multiplicity) is visited twice. -/
+def copyTargets {σ κ : Type} [DecidableEq σ] [DecidableEq κ]
+    (subdirs : List σ) (src : List (σ × κ)) (names : List κ) : List (σ × κ) :=
+  names.flatMap (fun n => (subdirs.filter (fun sub => src.contains (sub, n))).map (fun sub => (sub, n)))
+
+/-- `cp(src, dst)` target after target into a directory that holds `d`: `os.link` / `os.symlink`
+(`linkMode = true`, the default and `--symlink`) raise `FileExistsError` when the target is already
+there; `shutil.copy` (`--copy`) replaces it by the same bytes. -/
+def copyRun {κ : Type} [DecidableEq κ] (linkMode : Bool) : List κ → List κ → Except Unit (List κ)
+  | d, [] => .ok d
+  | d, k :: ks =>
+    if d.contains k then (if linkMode then .error () else copyRun linkMode d ks)
+    else copyRun linkMode (d ++ [k]) ks
+
+/-- `subset_torch_spect_data_dir` after the selection: the files of `dest` (fresh directory), or
+`FileExistsError`. -/
+def copyCmd {σ κ : Type} [DecidableEq σ] [DecidableEq κ] (linkMode : Bool)
+    (subdirs : List σ) (src : List (σ × κ)) (names : List κ) : Except Unit (List (σ × κ)) :=
+  copyRun linkMode [] (copyTargets subdirs src names)
+
 end Subset
 
 /-! ## 6. Moments -/
